@@ -12,6 +12,9 @@ import (
 	"fmt"
 	"io"
 	"sort"
+	"strings"
+	"sync"
+	"sync/atomic"
 
 	"github.com/lni/dragonboat/v4/config"
 	"github.com/lni/dragonboat/v4/internal/logdb"
@@ -372,9 +375,45 @@ type cluster struct {
 	onLeader func(r *replica)
 }
 
+// monitorTags: the property tags ("C02", ...) whose monitors may raise a
+// violation in the running check; nil = all. Every monitor message starts with
+// the tag(s) of the property it belongs to ("C18/C02: ..."); a check only
+// raises alarms for oracles of its own property and of properties its
+// statement includes. Failures without a tag (errors and panics of the code
+// under check) always count.
+var monitorTags map[string]bool
+
+// suppressedMonitors counts monitor failures that belong to other properties.
+var suppressedMonitors sync.Map
+
+func tagAllowed(msg string) bool {
+	if monitorTags == nil {
+		return true
+	}
+	i := strings.Index(msg, ":")
+	if i <= 0 || i > 12 || msg[0] != 'C' {
+		return true
+	}
+	for _, t := range strings.Split(msg[:i], "/") {
+		if len(t) != 3 || t[0] != 'C' {
+			return true // not a tag
+		}
+	}
+	for _, t := range strings.Split(msg[:i], "/") {
+		if monitorTags[t] {
+			return true
+		}
+	}
+	n, _ := suppressedMonitors.LoadOrStore(msg[:i], new(int64))
+	atomic.AddInt64(n.(*int64), 1)
+	return false
+}
+
 func (c *cluster) fail(format string, a ...interface{}) {
 	if c.viol == "" {
-		c.viol = fmt.Sprintf(format, a...)
+		if msg := fmt.Sprintf(format, a...); tagAllowed(msg) {
+			c.viol = msg
+		}
 	}
 }
 
